@@ -11,7 +11,7 @@ PROP = {'technique': 'property-based testing (rapid): discrete-event bottleneck 
                'model; single-threaded; math/rand pinned per case via rand.Seed (GODEBUG=randseednop=0).',
  'rule': 'rapid-generated path + history parameters (see level_text); per-packet randomness via rapid-drawn gaps. Non-trivial (Traces): the '
          'controller reached PROBE_BW or PROBE_RTT, or entered recovery, or a datagram-size raise happened with packets in flight; '
-         '(Liveness): every path (loss-free, backlogged, queue >= 1 BDP, max(11 s, 200 RTT), or >= 60 RTT for capacities whose 10 s exceed the '
+         '(Liveness): every path (loss-free, backlogged, queue >= 1 BDP, ACK per 1/2 packets or batched per 8/16 packets on a 5/10/25 ms grid, max(11 s, 200 RTT), or >= 60 RTT for capacities whose 10 s exceed the '
          'packet budget). Distinct = distinct configuration.',
  'assumptions': ['QUIC-consistency as derived from quic-go internal/ackhandler/sent_packet_handler.go + connection.go: see header of c12_sim_test.go',
                  'maximum window = 20000 datagrams (NewBbrSender) or the value passed to newBbrSender (customMaxWindow traces make the clamp reachable)',
